@@ -364,6 +364,10 @@ impl<'a> Printer<'a> {
             match p {
                 Part::This => self.out.push_str(self.kw(KW_THIS, "this", "THIS")),
                 Part::Var(v) => {
+                    // after the head position a variable is a key interpolation: `a.%v`
+                    if i > 0 {
+                        self.out.push('.');
+                    }
                     self.out.push('%');
                     self.out.push_str(v);
                 }
